@@ -18,3 +18,4 @@ UNITS += [RW.unit_fixed_row_writer_write_row().also("C20"), RW.unit_delimited_ro
 from props import _groups as _G
 UNITS = _G.with_groups(PROPERTY, UNITS, _G.READERS, _G.VALIDATION, _G.CHECKS, _G.WRITERS)
 UNITS += [PR.unit_late_classes()]
+UNITS += [VIO.unit_writer_sweep().also("C20")]
